@@ -278,13 +278,24 @@ def combo_files(info, schema, workdir):
     return [ab(f) for f in files], [ab(p) for p in paths]
 
 
-def generate(info, combo, mapmode, sites, outdir, workdir):
-    """Runs one generation in a fresh process. Returns (rc, {relpath: sha256}, stats, stderr_tail)."""
+def generate(info, combo, mapmode, sites, outdir, workdir, keep=False, relocate=False):
+    """Runs one generation in a fresh process. Returns (rc, {relpath: sha256}, stats, stderr_tail).
+    keep: write into outdir as it is (files of an earlier generation are still there);
+    relocate: run a copy of the generator binary that sits at another path."""
     schema, tool, flagset = combo
     files, paths = combo_files(info, schema, workdir)
-    if os.path.exists(outdir):
+    if os.path.exists(outdir) and not keep:
         shutil.rmtree(outdir)
-    os.makedirs(outdir)
+    os.makedirs(outdir, exist_ok=True)
+    if relocate:
+        info = dict(info)
+        d = os.path.join(workdir, "elsewhere", "bin-%d" % os.getpid())
+        os.makedirs(d, exist_ok=True)
+        for k in ("generator", "proto_generator"):
+            dst = os.path.join(d, "renamed-" + os.path.basename(info[k]))
+            if not os.path.exists(dst):
+                shutil.copy2(info[k], dst)
+            info[k] = dst
     if tool == "go":
         flags = list(GO_FLAGSETS[flagset])
         cmd = [info["generator"], "-path=" + ",".join(paths), "-package_name=vout"] + flags
@@ -577,6 +588,34 @@ def run_combo(args):
                 res["runs"] += used
             res["violations"].append(v)
             break
+        if not res["violations"]:
+            # the disk and the process as schedule dimensions: (1) the output directory already holds the files
+            # of an earlier, longer generation (every reference file with a tail appended, plus one file that
+            # this generation does not produce); (2) the generator binary sits at another path
+            stale = os.path.join(workdir, "stale")
+            if os.path.exists(stale):
+                shutil.rmtree(stale)
+            shutil.copytree(refdir, stale)
+            for root, _, fs in os.walk(stale):
+                for f in fs:
+                    with open(os.path.join(root, f), "ab") as fh:
+                        fh.write(b"\n// tail of a longer file written by an earlier generation\n" * 40)
+            rc, got, _, err = generate(info, combo, "canon", None, stale, workdir, keep=True)
+            res["runs"] += 1
+            res["fired"]["output-directory-holds-longer-files"] = res["fired"].get("output-directory-holds-longer-files", 0) + 1
+            if rc != 0 or got != ref:
+                f, detail = first_diff(refdir, stale, ref, got)
+                res["violations"].append({"combo": list(combo), "map": "canon", "sites": None, "rc": rc, "file": f, "environment": "stale-output-directory",
+                                          "detail": "generating into a directory that already holds longer files of the same names gives different files than generating into an empty one; " + detail})
+            else:
+                out = os.path.join(workdir, "out-reloc")
+                rc, got, _, err = generate(info, combo, "canon", None, out, workdir, relocate=True)
+                res["runs"] += 1
+                res["fired"]["generator-binary-at-another-path"] = res["fired"].get("generator-binary-at-another-path", 0) + 1
+                if rc != 0 or got != ref:
+                    f, detail = first_diff(refdir, out, ref, got)
+                    res["violations"].append({"combo": list(combo), "map": "canon", "sites": None, "rc": rc, "file": f, "environment": "relocated-binary",
+                                              "detail": "the same generator binary copied to another path produces different output; " + detail})
         if not res["violations"] and flagset in INPROC_FLAGSETS:
             inproc_leg(info, combo, tier, r, workdir, res)
         res["wall_s"] = round(time.time() - t0, 2)
@@ -639,6 +678,8 @@ def check(pid, tier, seed):
     for v in viols:
         key_sites = v.get("minimal_sites") or v.get("sites") or []
         sig = "C25:" + v["combo"][1] + ":" + ("+".join(key_sites) if key_sites else ("native-order" if v["map"] == "pass" else "unminimised"))
+        if v.get("environment"):
+            sig = "C25:" + v["combo"][1] + ":" + v["environment"]
         if v.get("identical_plan"):
             sig = "C25:" + v["combo"][1] + ":identical-plan-different-output"
         if v.get("inproc"):
@@ -650,7 +691,7 @@ def check(pid, tier, seed):
         safe = "".join(ch if ch.isalnum() else "_" for ch in sig)[:70]
         path = os.path.join(REPLAYS, "C25-%s.json" % safe)
         case = {"property": "C25", "combo": v["combo"], "map": v["map"], "sites": v.get("minimal_sites") or v.get("sites"), "inproc": bool(v.get("inproc")),
-                "seq": v.get("seq"), "modes": v.get("modes"), "identical_plan": bool(v.get("identical_plan"))}
+                "seq": v.get("seq"), "modes": v.get("modes"), "identical_plan": bool(v.get("identical_plan")), "environment": v.get("environment")}
         json.dump({"property": "C25", "seed": seed, "violation": {"property": "C25", "oracle": "output-differs", "signature": sig,
                                                                    "msg": "output file %s differs from the canonical-order reference: %s" % (v["file"], v["detail"])},
                    "case": case, "repo_hash": info["repo_hash"], "how_to_replay": "./verifctl replay %s" % os.path.relpath(path, VERIF)}, open(path, "w"), indent=1)
@@ -740,7 +781,17 @@ def replay(path, doc):
             log("reference generation failed: " + err)
             return 2
         out = os.path.join(workdir, "out")
-        rc, got, st, err = generate(info, combo, case["map"], case.get("sites"), out, workdir)
+        if case.get("environment") == "stale-output-directory":
+            shutil.copytree(refdir, out)
+            for root, _, fs in os.walk(out):
+                for f in fs:
+                    with open(os.path.join(root, f), "ab") as fh:
+                        fh.write(b"\n// tail of a longer file written by an earlier generation\n" * 40)
+            rc, got, st, err = generate(info, combo, "canon", None, out, workdir, keep=True)
+        elif case.get("environment") == "relocated-binary":
+            rc, got, st, err = generate(info, combo, "canon", None, out, workdir, relocate=True)
+        else:
+            rc, got, st, err = generate(info, combo, case["map"], case.get("sites"), out, workdir)
         if rc == 0 and got == ref:
             print("replay: output identical to the canonical-order reference (no violation)")
             return 0
